@@ -15,6 +15,7 @@ and `c.in <== x` on another branch); nothing is reported for functions and custo
 nothing is attached to any other statement.
 -/
 import Circomspect.Model.SignalAssign
+import Circomspect.Lemmas.AliasLemmas
 
 namespace Circomspect.C08
 open Circomspect SignalAssign
@@ -147,6 +148,17 @@ theorem C08_equal_access_listed (ss : List Stmt) (k : Key) (c : Loc) (reads : Li
   rw [C08_secondaries]
   refine ⟨reads, target, hs, r, List.mem_append_left _ hr, ?_⟩
   simp [mentions, hn, ha, C08_alias_refl]
+
+/-- the comparison never misses a real mention: whenever, in some execution whose index values agree with what constant
+    propagation knows, the access of a use and the access of the assignment denote the same signal, or one denotes a part of the
+    other (an array and an element, a component and a port), the pass identifies them -/
+theorem C08_alias_complete (a b : List Acc) (ca cb : List CAcc) (ha : denotesL a ca) (hb : denotesL b cb)
+    (h : isPrefix ca cb ∨ isPrefix cb ca) : mayAlias a b = true :=
+  mayAlias_complete a b ca cb ha hb h
+
+/-- non-vacuity: `r[i]` (index unknown) and `r[j]` both denote `r[2]` in some execution -/
+example : denotesL [.idx none] [.idx "f2"] ∧ denotesL [.idx none] [.idx "f2"] ∧ isPrefix [CAcc.idx "f2"] [CAcc.idx "f2"] := by
+  simp [denotesL, denotes, isPrefix]
 
 /-- two elements with indices known to be different do not alias; an unknown index aliases every element -/
 example : mayAlias [.idx (some "f0")] [.idx (some "f1")] = false ∧ mayAlias [.idx none] [.idx (some "f1")] = true
